@@ -88,15 +88,41 @@ func c12JSONClient(r *Run) {
 						why = "an unlisted status is retried"
 						continue
 					}
-					if good, w := want(r, ret); !good {
-						ok, why = false, w
+					// one return statement may serve several outcomes (the error is a φ): what counts
+					// is the value that arrives under this walk
+					leaves := PhiLeaves(ret.Results[2], reach)
+					if len(leaves) == 1 && leaves[0] == ret.Results[2] {
+						if good, w := want(r, ret); !good {
+							ok, why = false, w
+						}
+						continue
+					}
+					if len(leaves) == 0 {
+						ok, why = false, "undecided: no error value arrives at "+r.Where(ret)
+					}
+					for i := 0; i < 2; i++ {
+						if d := r.D.DUnder(ret.Results[i], reach); d != "nil" {
+							ok, why = false, fmt.Sprintf("result %d is %s on an error return (partially filled result)", i, d)
+						}
+					}
+					for _, ev := range leaves {
+						if glob("(*jsonclient.JSONClient).waitForBackoff(*)", r.D.D(ev)) {
+							ok, why = false, "an unlisted status is retried"
+							continue
+						}
+						if good, w := c12RspErrorValue(r, fn, ev, st, c12Post+"(*)#1"); !good {
+							ok, why = false, w
+						}
 					}
 				}
 				r.Check(key, ok, r.FnPos(fn), "a status that is neither 200 nor a retry status ⇒ RspError{that status, that body}, nil results "+why)
 			default:
 				for _, ret := range rets {
-					if errKind(ret.Results[2]) == "nil" {
-						r.Fail(key, r.Where(ret), fmt.Sprintf("status %d can reach a success return", c.Value))
+					for _, ev := range PhiLeaves(ret.Results[2], reach) {
+						if errKind(ev) == "nil" {
+							r.Fail(key, r.Where(ret), fmt.Sprintf("status %d can reach a success return", c.Value))
+							break
+						}
 					}
 				}
 			}
@@ -106,7 +132,7 @@ func c12JSONClient(r *Run) {
 		for _, ret := range nilErrReturns(fn) {
 			succ = append(succ, ret)
 		}
-		r.MustGuardAfter(fn, "PostAndParseWithRetry:success-needs-200", "ord("+st+", 200)", "<,>", succ, "success return")
+		c12SuccessNeeds200(r, fn, st, succ)
 		r.MustGuardAfter(fn, "PostAndParseWithRetry:success-needs-post-ok", "nil?"+c12Post+"(*)#2", "non", succ, "success return")
 		if c := r.OneCall(fn, "PostAndParseWithRetry:post", c12Post); c != nil {
 			for i := 0; i < 5; i++ {
@@ -114,6 +140,112 @@ func c12JSONClient(r *Run) {
 			}
 		}
 	}
+}
+
+// c12SuccessNeeds200: a nil-error return of the retry loop needs a 200 answer of an attempt that did
+// not fail. Three walks establish it: (the existing) attempt error ⇒ no success return; with the
+// attempt error nil, (a) once the status test came out ≠ 200 no success return executes — also not
+// in later attempts with the same outcome — and (b) no success return is reached without passing a
+// block that compares the status with 200. Fixing the attempt's error at nil in (a) loses nothing
+// (the other half is the success-needs-post-ok obligation) and keeps a return statement that is
+// shared by the error edge and the 200 case (its error a φ, tested again) from looking reachable.
+func c12SuccessNeeds200(r *Run, fn *ssa.Function, st string, succ []ssa.Instruction) {
+	key := "PostAndParseWithRetry:success-needs-200"
+	if len(succ) == 0 {
+		r.Fail(key, r.FnPos(fn), "no marker instruction for success return")
+		return
+	}
+	blocks := r.blocksTesting(fn, func(ci *CondInfo) bool {
+		return ci.Kind == "ord" && (glob(st, ci.A) && ci.B == "200" || glob(st, ci.B) && ci.A == "200")
+	})
+	if len(blocks) == 0 {
+		r.Fail(key, r.FnPos(fn), "undecided: no block of "+FuncName(fn)+" compares "+st+" with 200")
+		return
+	}
+	errPat := "nil?" + c12Post + "(*)#2"
+	atoms := []RuleAtom{{Name: "a", OrdA: st, OrdB: "200"}, {Name: "e", Pat: errPat, Dom: []string{"nil"}}}
+	for _, b := range blocks {
+		ok, detail := true, ""
+		res, err := r.D.Table(fn, b, nil, atoms, func(val map[string]string, reach *Reach, s Sigma) {
+			any := false
+			for _, m := range succ {
+				if reach.Has(m) {
+					any = true
+					if val["a"] != "=" {
+						ok = false
+						detail = fmt.Sprintf("success return at %s is reachable under %s", r.Where(m), s)
+					}
+				}
+			}
+			if val["a"] == "=" && !any {
+				ok = false
+				detail = fmt.Sprintf("success return is unreachable even under %s (positive control)", s)
+			}
+		})
+		if err != nil {
+			r.Fail(key, r.FnPos(fn), "undecided: "+err.Error())
+			return
+		}
+		r.Valuations += res.Valuations
+		if ok {
+			detail = fmt.Sprintf("success return unreachable whenever %v ≠ 200 (attempt error nil); reachable otherwise", res.Bound["a"])
+		}
+		r.Check(key, ok, r.Where(succ[0]), detail)
+	}
+	s, err := r.BindSigma(fn, AtomVal{RuleAtom{Pat: errPat}, "nil"})
+	if err != nil {
+		r.Fail(key+":status-tested", r.FnPos(fn), "undecided: "+err.Error())
+		return
+	}
+	stop := map[*ssa.BasicBlock]bool{}
+	for _, b := range blocks {
+		stop[b] = true
+	}
+	reach := r.D.Walk(fn, s, nil, stop)
+	r.Valuations++
+	bypass := ""
+	for _, m := range succ {
+		if reach.Has(m) {
+			bypass = r.Where(m)
+		}
+	}
+	r.Check(key+":status-tested", bypass == "", r.FnPos(fn), "no success return is reached (attempt error nil) without passing the comparison of the status with 200"+
+		map[bool]string{true: "", false: "; the success return at " + bypass + " is"}[bypass == ""])
+}
+
+// c12RspErrorValue is wantRspError for one error value (a leaf of the φ a shared return statement
+// hands out): an RspError literal whose StatusCode / Body come from the received response and whose
+// Err is not the nil constant.
+func c12RspErrorValue(r *Run, fn *ssa.Function, ev ssa.Value, statusGlob, bodyGlob string) (bool, string) {
+	a := rspErrorAlloc(ev)
+	if a == nil {
+		return false, "error " + shortErr(r.D.D(ev)) + " is not a jsonclient.RspError literal (HTTP status and body are lost)"
+	}
+	name := r.D.allocName(a)
+	for _, f := range []string{"StatusCode", "Body", "Err"} {
+		sts := r.StoresTo(fn, "&("+name+"."+f+")")
+		if len(sts) == 0 {
+			return false, "RspError." + f + " is not set"
+		}
+		for _, st := range sts {
+			got := r.D.D(st.Val)
+			switch f {
+			case "StatusCode":
+				if !anyGlob(statusGlob, got) {
+					return false, fmt.Sprintf("RspError.StatusCode ← %s, expected %s", got, statusGlob)
+				}
+			case "Body":
+				if !anyGlob(bodyGlob, got) {
+					return false, fmt.Sprintf("RspError.Body ← %s, expected %s", got, bodyGlob)
+				}
+			default:
+				if errKind(st.Val) == "nil" {
+					return false, "RspError.Err is nil"
+				}
+			}
+		}
+	}
+	return true, ""
 }
 
 // c12SuccessShape: every nil-error return of a fetch helper hands out the response and
